@@ -12,24 +12,33 @@ import (
 	"fmt"
 	"net/http"
 	"net/http/httptest"
+	"net/url"
+	"os"
+	"path/filepath"
 	"strconv"
 	"strings"
 	"sync"
 	"testing"
 
 	"github.com/cenkalti/backoff"
+	"github.com/jmoiron/sqlx"
 	"github.com/uber-go/tally"
 	"go.uber.org/zap"
 
 	"github.com/uber/kraken/build-index/tagclient"
 	"github.com/uber/kraken/core"
+	"github.com/uber/kraken/lib/persistedretry"
 	"github.com/uber/kraken/lib/persistedretry/tagreplication"
+	"github.com/uber/kraken/localdb"
 	"github.com/uber/kraken/origin/blobclient"
 	"github.com/uber/kraken/utils/log"
 	"github.com/uber/kraken/utils/verifh"
 )
 
-const c33MaxReps = 3
+const (
+	c33MaxReps = 3
+	c33Tag     = "repo/img:v1"
+)
 
 var c33Digests = func() []core.Digest {
 	var ds []core.Digest
@@ -126,17 +135,28 @@ type c33Env struct {
 	w       *c33World
 	index   *httptest.Server
 	origins []*httptest.Server
+	// the real task table: every execution runs the task as it comes back from the store
+	db    *sqlx.DB
+	store *tagreplication.Store
 }
+
+type c33AllValid struct{}
+
+func (c33AllValid) Valid(tag, addr string) bool { return true }
 
 func c33NewEnv() *c33Env {
 	e := &c33Env{w: &c33World{scripts: map[string][]string{}}}
 	e.index = httptest.NewServer(http.HandlerFunc(func(rw http.ResponseWriter, r *http.Request) {
+		// the requests must name the task's tag and digest exactly
+		tagPath := "/tags/" + url.PathEscape(c33Tag)
+		putPath := tagPath + "/digest/" + c33Digests[3].String()
+		ep := strings.Replace(r.URL.EscapedPath(), "%3A", ":", -1)
 		switch {
-		case r.Method == "HEAD" && strings.HasPrefix(r.URL.Path, "/tags/"):
+		case r.Method == "HEAD" && ep == strings.Replace(tagPath, "%3A", ":", -1):
 			c33Answer(rw, e.w.next("has"), "")
 		case r.Method == "GET" && r.URL.Path == "/origin":
 			c33Answer(rw, e.w.next("origin"), "remote-origin")
-		case r.Method == "PUT" && strings.HasPrefix(r.URL.Path, "/tags/") && r.URL.Query().Get("replicate") == "true":
+		case r.Method == "PUT" && ep == strings.Replace(putPath, "%3A", ":", -1) && r.URL.Query().Get("replicate") == "true":
 			c33Answer(rw, e.w.next("put"), "")
 		default:
 			e.w.next("unexpected." + r.Method + r.URL.Path)
@@ -148,7 +168,8 @@ func c33NewEnv() *c33Env {
 		e.origins = append(e.origins, httptest.NewServer(http.HandlerFunc(func(rw http.ResponseWriter, r *http.Request) {
 			p := strings.Split(strings.Trim(r.URL.EscapedPath(), "/"), "/")
 			// namespace/<ns>/blobs/<digest>/remote/<remote>
-			if r.Method == "POST" && len(p) == 6 && p[0] == "namespace" && p[2] == "blobs" && p[4] == "remote" && p[5] == "remote-origin" {
+			if r.Method == "POST" && len(p) == 6 && p[0] == "namespace" && strings.Replace(p[1], "%3A", ":", -1) == strings.Replace(url.PathEscape(c33Tag), "%3A", ":", -1) &&
+				p[2] == "blobs" && p[4] == "remote" && p[5] == "remote-origin" {
 				hex := strings.TrimPrefix(strings.Replace(p[3], "%3A", ":", 1), "sha256:")
 				c33Answer(rw, e.w.next(fmt.Sprintf("rep.%s.%d", c33DigestTok(hex), i)), "")
 				return
@@ -248,6 +269,10 @@ func c33Run(e *c33Env, tr *verifh.T, c verifh.Case) {
 		cluster = blobclient.NewClusterClient(res)
 	}
 	ex := tagreplication.NewExecutor(tally.NoopScope, cluster, tagclient.NewProvider(nil))
+	if _, err := e.db.Exec("DELETE FROM replicate_tag_task"); err != nil {
+		panic(err)
+	}
+	added := false
 	for _, op := range c.Ops {
 		if len(op) != 3 || op[0] != "op" || op[1] != "exec" || !strings.HasPrefix(op[2], "deps=") {
 			continue
@@ -265,11 +290,37 @@ func c33Run(e *c33Env, tr *verifh.T, c verifh.Case) {
 		e.w.mu.Lock()
 		e.w.log = nil
 		e.w.mu.Unlock()
-		task := tagreplication.NewTask("repo/img:v1", c33Digests[3], deps, c33Addr(e.index), 0)
+		// the task goes through the table: added once (first execution of the case), then every
+		// execution — the first one and the retries — runs what GetPending / GetFailed return
+		if !added {
+			added = true
+			task := tagreplication.NewTask(c33Tag, c33Digests[3], deps, c33Addr(e.index), 0)
+			if err := e.store.AddPending(task); err != nil {
+				tr.PropFail("harness-store", verifh.Str(err.Error()))
+				continue
+			}
+		}
+		var stored []persistedretry.Task
+		if ts, err := e.store.GetPending(); err == nil {
+			stored = append(stored, ts...)
+		}
+		if ts, err := e.store.GetFailed(); err == nil {
+			stored = append(stored, ts...)
+		}
+		if len(stored) != 1 {
+			tr.Op(op[1:], "gone", "trace=-")
+			continue
+		}
+		task := stored[0]
 		var err error
 		if p := verifh.Protect(func() { err = ex.Exec(task) }); p != "" {
 			tr.PropFail("panic", verifh.Str(p))
 			continue
+		}
+		if err != nil {
+			e.store.MarkFailed(task)
+		} else {
+			e.store.Remove(task)
 		}
 		e.w.mu.Lock()
 		trace := verifh.List(e.w.log)
@@ -288,6 +339,24 @@ func TestVerif_C33(t *testing.T) {
 	defer tr.Close()
 	e := c33NewEnv()
 	defer e.close()
+	base := os.TempDir()
+	if st, err := os.Stat("/dev/shm"); err == nil && st.IsDir() {
+		base = "/dev/shm"
+	}
+	dir, err := os.MkdirTemp(base, "verif-c33-")
+	if err != nil {
+		t.Fatal(err)
+	}
+	defer os.RemoveAll(dir)
+	e.db, err = localdb.New(localdb.Config{Source: filepath.Join(dir, "tasks.db")})
+	if err != nil {
+		t.Fatal(err)
+	}
+	defer e.db.Close()
+	e.store, err = tagreplication.NewStore(e.db, c33AllValid{})
+	if err != nil {
+		t.Fatal(err)
+	}
 
 	cases, replayOnly := verifh.InputCases("tagrepl")
 	for _, c := range cases {
